@@ -1,5 +1,6 @@
 import Driver.State
 import IpfixModel.Spec.C04
+import IpfixModel.Spec.C17
 namespace Driver
 open Ipfix
 
@@ -8,8 +9,7 @@ def parseMode : String → Option Mode
 
 def iesToken (ies : List IE) : String := joinOr "," (ies.map ieToken)
 
-def recsToken (recs : List (List Value)) : String :=
-  joinOr ";" (recs.map fun r => joinOr "," (r.map valueToken))
+def recsToken (recs : List (List Value)) : String := recordsTok recs
 
 def msgToken (m : Msg) : String :=
   let hdr := s!"ok {m.hdr.length} {m.hdr.exportTime} {m.hdr.seq} {m.hdr.dom}"
@@ -81,5 +81,50 @@ def chkDec (useSpec : Bool) (s : DState) (a : List String) : DState × String :=
     let expected := "keys " ++ joinOr "," (ks.map fun k => s!"{k.1}:{k.2}")
     (s, if impl == expected then "holds" else s!"fails keys {expected}")
   | _ => (s, "na")
+
+/-- engine "reg": dump of the regenerated registry, for the exhaustive cross-check -/
+def engReg (a : List String) : String :=
+  match a with
+  | ["dump", ent, lo, hi] =>
+    match ent.toNat?, lo.toNat?, hi.toNat? with
+    | some ent, some lo, some hi =>
+      let ids := (List.range (hi - lo)).map (· + lo)
+      let out := ids.filterMap fun id => (fastLookup ent id).map fun ie => s!"{id}={ieToken ie}"
+      if out.isEmpty then "-" else " ".intercalate out
+    | _, _, _ => "bad-op"
+  | _ => "bad-op"
+
+def parseObs (t : List String) : C17.Obs :=
+  match t with
+  | ["err"] => .err
+  | ["ok", _, _, _, _, "tpl", id, ies] =>
+    match id.toNat?, parseIEs ies with
+    | some id, some ies => .tpl id ies
+    | _, _ => .other
+  | ["ok", _, _, _, _, "data", recs] =>
+    match parseRecords recs with
+    | some r => .data r
+    | none => .other
+  | _ => .other
+
+def splitBars (a : List String) : List (List String) :=
+  let rec go (acc : List String) (rest : List String) (out : List (List String)) : List (List String) :=
+    match rest with
+    | [] => (acc.reverse :: out).reverse
+    | "|" :: r => go [] r (acc.reverse :: out)
+    | x :: r => go (x :: acc) r out
+  go [] a []
+
+/-- `chk c17 <template pkt hex> <data pkt hex> | 8 observations` : Spec.C17.holdsCase -/
+def chkC17 (a : List String) : String :=
+  match splitBars a with
+  | [[_tplhex, datahex], o1, o2, o3, o4, o5, o6, o7, o8] =>
+    match fromHex datahex with
+    | some d =>
+      let obs := C17.CaseObs.mk (parseObs o1) (parseObs o2) (parseObs o3) (parseObs o4) (parseObs o5) (parseObs o6) (parseObs o7) (parseObs o8)
+      let (ok, why) := C17.holdsCase (d.drop 20) obs
+      if ok then "holds" else s!"fails {why}"
+    | none => "bad-op"
+  | _ => "bad-op"
 
 end Driver
